@@ -13,8 +13,8 @@ import subprocess
 import sys
 import time
 
-VERIF = "/verif"
-REPO = "/repo"
+VERIF = os.environ.get("VERIF_ROOT") or "/verif"      # VERIF_ROOT: a scratch copy of this directory (development only)
+REPO = os.environ.get("VERIF_REPO") or "/repo"
 CACHE = os.path.join(VERIF, ".cache")
 HARNESS_TARGET = os.path.join(CACHE, "harness-target")
 HARNESS_BIN = os.path.join(HARNESS_TARGET, "debug", "sodg-verif-harness")
